@@ -25,3 +25,9 @@ package join
 //@   loop 2: invariant len(e.errs) == countNonNil(errs, $n)
 //@           invariant forall j int :: 0 <= j && j < len(e.errs) ==> e.errs[j] != nil
 //@           invariant forall i int :: 0 <= i && i < $n && errs[i] != nil ==> countNonNil(errs, i) < len(e.errs) && e.errs[countNonNil(errs, i)] == errs[i]
+
+// C09 / C13: a join presents its branches itself and never continues with a single cause
+//@ method (*joinError).SafeFormatError
+//@   props C09 C13
+//@   requires p != nil
+//@   ensures result == nil
